@@ -370,6 +370,9 @@ pub struct JaxNoise {
     /// terms with two or more is_a lines are written as two [Term] stanzas of the same id and name, each with a part
     /// of the lines (the first stanza carries the flags; a repeated stanza adds its links to the term)
     pub split_stanzas: bool,
+    /// position of the `data-version` line in the header of hp.obo: 0 directly after `format-version` (as in the
+    /// releases), 1 after other header tags, 2 as the last header line
+    pub header_order: u8,
 }
 
 const TAG_POOL: [&str; 8] = [
@@ -400,14 +403,23 @@ pub struct JaxFiles {
 pub fn render_jax(f: &Facts, noise: &JaxNoise) -> JaxFiles {
     let mut obo = String::new();
     if !noise.no_header {
+        let version_line = format!("data-version: hp/releases/{:04}-{:02}-{:02}\n", f.version.0, f.version.1, f.version.2);
         obo.push_str("format-version: 1.2\n");
-        obo.push_str(&format!(
-            "data-version: hp/releases/{:04}-{:02}-{:02}\n",
-            f.version.0, f.version.1, f.version.2
-        ));
-        obo.push_str("saved-by: verif\nontology: hp\n");
+        if noise.header_order % 3 == 0 {
+            obo.push_str(&version_line);
+        }
+        obo.push_str("saved-by: verif\n");
+        if noise.header_order % 3 == 1 {
+            obo.push_str("date: 01:01:2024 12:00\nsubsetdef: hposlim_core \"Core clinical terminology\"\n");
+            obo.push_str(&version_line);
+        }
+        obo.push_str("ontology: hp\n");
         if noise.long_lines {
             obo.push_str(&format!("remark: {}\n", "long remark ".repeat(800)));
+        }
+        if noise.header_order % 3 == 2 {
+            obo.push_str("default-namespace: human_phenotype\n");
+            obo.push_str(&version_line);
         }
     }
     let mut tag_i = 0usize;
